@@ -3,6 +3,9 @@
 and write the catch matrix to seeded/MATRIX.json.  Never leaves /repo modified."""
 import json, os, shutil, subprocess, sys, tempfile
 VERIF = os.path.dirname(os.path.dirname(os.path.abspath(__file__)))
+REPO = os.environ.get("H3_REPO", "/repo")          # a clone at the same commit when several workers share the matrix
+OWN_ONLY = os.environ.get("SEEDTEST_OWN_ONLY") == "1"
+OUT = os.environ.get("SEEDTEST_OUT", os.path.join(VERIF, "seeded", "MATRIX.json"))
 ids = sorted(d for d in os.listdir(os.path.join(VERIF, "seeded")) if os.path.isdir(os.path.join(VERIF, "seeded", d)))
 extra = {"C02": ["C03"], "C03": ["C02"], "C04": ["C13", "C06"], "C12": ["C13"], "C14": ["C09"], "C09": ["C14"],
          "C07": ["C15"], "C15": ["C07"], "C13": ["C04", "C12"], "C17": ["C05"], "C05": ["C17"]}
@@ -20,13 +23,13 @@ for sid in sel:
     meta = json.load(open(os.path.join(VERIF, "seeded", sid, "meta.json")))
     prop = meta["property"]
     seed = os.environ.get("VERIF_SEED", "1")
-    r = subprocess.run(["git", "-C", "/repo", "apply", patch], capture_output=True, text=True)
+    r = subprocess.run(["git", "-C", REPO, "apply", patch], capture_output=True, text=True)
     if r.returncode != 0:
         res[sid] = {"apply": "FAILED " + r.stderr[:200]}
         continue
     try:
         row = {}
-        for chk in [prop] + extra.get(prop, []):
+        for chk in [prop] + ([] if OWN_ONLY else extra.get(prop, [])):
             p = subprocess.run([sys.executable, os.path.join(VERIF, "checks/run.py"), "--property", chk, "--tier", "quick"],
                                capture_output=True, text=True, cwd=VERIF)
             viol = [l for l in p.stdout.split("\n") if l.startswith("VIOLATION")]
@@ -36,9 +39,9 @@ for sid in sel:
             row[chk] = {"rc": p.returncode, "result": kind}
         res[sid] = row
     finally:
-        subprocess.run(["git", "-C", "/repo", "checkout", "--", "."])
+        subprocess.run(["git", "-C", REPO, "checkout", "--", "."])
     print(sid, res[sid], flush=True)
-json.dump(res, open(os.path.join(VERIF, "seeded", "MATRIX.json"), "w"), indent=1)
+json.dump(res, open(OUT, "w"), indent=1)
 for f in os.listdir(_keep):
     shutil.copy(os.path.join(_keep, f), os.path.join(VERIF, "evidence", f))
 shutil.rmtree(_keep, ignore_errors=True)
